@@ -9,6 +9,14 @@ job:
            "FIXED" FixedSeparationsEventHandlerWithPiecewiseConstantBoundingPotential
            "SUMMED" TwoCompositeObjectSummedBoundingPotentialEventHandler
            "CELLB" TwoLeafUnitCellBoundingPotentialEventHandler (stub cells: cell of a position = prescribed token)
+           "CCELLB" TwoCompositeObjectCellBoundingPotentialEventHandler (stub cells)
+           "ROOTTL" RootUnitActiveTwoLeafUnitEventHandler, "ROOTSUM" RootUnitActiveTwoCompositeObjectSummedBounding...
+                    ("units2": the fresh root cnodes the mediator hands to send_out_state)
+           "LCV" / "CCV" LeafUnit- / CompositeObjectCellVetoEventHandler, send_out_state only: the state that
+                    send_event_time leaves behind is produced with the handler's own base-class methods
+                    (_store_in_state, _construct_leaf_cnodes, _extract_active_leaf_unit, _time_slice_all_units_in_state)
+                    for the prescribed event time "T", the stored bounding event rate is "b"; "target": the units of
+                    the target root cnode or None (empty target cell).  send_event_time itself: C18 glue.
   beta, L  bits; dim
   charge   bool: the handler is configured with the charge name "q"; ncharge: number_charge_arguments of the stubs
   change_required  (TL) potential_change_required of the stub potential
@@ -42,6 +50,13 @@ from jellyfysh.event_handler.two_composite_object_summed_bounding_potential_even
     TwoCompositeObjectSummedBoundingPotentialEventHandler
 from jellyfysh.event_handler.two_leaf_unit_cell_bounding_potential_event_handler import \
     TwoLeafUnitCellBoundingPotentialEventHandler
+from jellyfysh.event_handler.two_composite_object_cell_bounding_potential_event_handler import \
+    TwoCompositeObjectCellBoundingPotentialEventHandler
+from jellyfysh.event_handler.root_unit_active_two_leaf_unit_event_handler import RootUnitActiveTwoLeafUnitEventHandler
+from jellyfysh.event_handler.root_unit_active_two_composite_object_summed_bounding_potential_event_handler import \
+    RootUnitActiveTwoCompositeObjectSummedBoundingPotentialEventHandler
+from jellyfysh.event_handler.leaf_unit_cell_veto_event_handler import LeafUnitCellVetoEventHandler
+from jellyfysh.event_handler.composite_object_cell_veto_event_handler import CompositeObjectCellVetoEventHandler
 from jellyfysh.potential.cell_bounding_potential import CellBoundingPotential
 from jellyfysh.activator.internal_state.cell_occupancy.cells import PeriodicCells
 
@@ -84,7 +99,9 @@ class Stub(object):
     def _rec(self, which, velocity, rest, kw):
         n, c = self.number_separation_arguments, self.number_charge_arguments
         seps = rest[:n]
-        charges = rest[n:n + c]
+        charges = []
+        for x in rest[n:n + c]:             # the composite cell-bounding handler hands (q, (q_1, q_2, ...))
+            charges += list(x) if isinstance(x, (tuple, list)) else [x]
         extra = rest[n + c:]
         change = kw.get("potential_change", extra[0] if extra else None)
         assert len(extra) <= 1 and set(kw) <= {"potential_change"}
@@ -254,8 +271,33 @@ def run_job(job):
         pot = Stub(0, 1, nc, False, [], [])
         bpot = Stub(2, 1, nc, True, [], [])
         h = TwoLeafUnitCellBoundingPotentialEventHandler(potential=pot, bounding_potential=CellStub(bpot), charge=ch)
+    elif kind == "CCELLB":
+        pot = Stub(0, 1, nc, False, [], [])
+        bpot = Stub(2, 1, nc, True, [], [])
+        h = TwoCompositeObjectCellBoundingPotentialEventHandler(
+            potential=pot, bounding_potential=CellStub(bpot), lifting=recording(LIFTINGS[job["lifting"]]), charge=ch)
+    elif kind == "ROOTTL":
+        pot = Stub(0, 1, nc, job["change_required"], [], [])
+        h = RootUnitActiveTwoLeafUnitEventHandler(potential=pot, charge=ch)
+    elif kind == "ROOTSUM":
+        pot = Stub(0, 1, nc, False, [], [])
+        bpot = Stub(2, 1, nc, True, [], [])
+        h = RootUnitActiveTwoCompositeObjectSummedBoundingPotentialEventHandler(
+            potential=pot, bounding_potential=bpot, charge=ch)
+    elif kind == "LCV":
+        pot = Stub(0, 1, nc, False, [], [])
+        h = LeafUnitCellVetoEventHandler(estimator=SimpleNamespace(potential=pot), potential=pot, charge=ch)
+    elif kind == "CCV":
+        pot = Stub(0, 1, nc, False, [], [])
+        h = CompositeObjectCellVetoEventHandler(estimator=SimpleNamespace(potential=pot),
+                                                lifting=recording(LIFTINGS[job["lifting"]]), potential=pot, charge=ch)
     else:
         raise ValueError(kind)
+    if kind in ("LCV", "CCV"):
+        # CellVetoEventHandler.initialize = Initializer.initialize (frees the public methods) + the Walker tables of
+        # send_event_time, which send_out_state does not use
+        from jellyfysh.base.initializer import Initializer
+        Initializer.initialize(h)
     results = []
     for rd in rounds:
         results.append(run_round(kind, h, pot, bpot, rd))
@@ -277,10 +319,19 @@ def run_round(kind, h, pot, bpot, rd):
     pot._disp, pot._der = vals("disp"), vals("der")
     if bpot is not None:
         bpot._disp, bpot._der = vals("bdisp"), vals("bder")
-    if kind == "CELLB":
-        h.initialize(CellsStub(rd["cells"]["tokens"], rd["cells"]["relative"]))
+    if kind in ("CELLB", "CCELLB"):
+        cells = CellsStub(rd["cells"]["tokens"], rd["cells"]["relative"])
+        if h._cells is None:
+            h.initialize(cells)
+        else:
+            h._cells = cells
     roots, nodes = build_state(rd)
+    roots2 = nodes2 = None
+    if kind in ("ROOTTL", "ROOTSUM"):
+        roots2, nodes2 = build_state({"units": rd["units2"]})
     res = {}
+    if kind in ("LCV", "CCV"):
+        return run_cv_round(h, rd, roots, nodes, res)
     try:
         t = h.send_event_time(roots)
         if isinstance(t, tuple):
@@ -289,18 +340,23 @@ def run_round(kind, h, pot, bpot, rd):
         res["state1"] = dump(nodes)
         res["n_calls1"] = len(LOG.calls)
         if rd.get("do_out", True):
-            out = h.send_out_state()
+            out = h.send_out_state() if roots2 is None else h.send_out_state(roots2)
             if out is None:
                 res["out"] = None
             else:
-                res["out_is_state"] = (len(out) == len(roots) and all(a is b for a, b in zip(out, roots)))
-                res["out"] = dump(nodes)
+                want = roots if roots2 is None else roots2
+                res["out_is_state"] = (len(out) == len(want) and all(a is b for a, b in zip(out, want)))
+                res["out"] = dump(nodes if nodes2 is None else nodes2)
         else:
             res["out"] = "skipped"
     except Exception as e:  # noqa
         import traceback
         res["exc"] = exc_enum(e) + ": " + str(e)[:200]
         res["tb"] = traceback.format_exc()[-600:]
+    return finish(res)
+
+
+def finish(res):
     res["expo_args"] = list(LOG.expo)
     res["unif_args"] = [list(x) for x in LOG.unif]
     res["calls"] = [list(x) for x in LOG.calls]
@@ -308,6 +364,30 @@ def run_round(kind, h, pot, bpot, rd):
     res["cells"] = [list(x) for x in LOG.cells]
     res["left"] = [len(Q.expo), len(Q.unif)]
     return res
+
+
+def run_cv_round(h, rd, roots, nodes, res):
+    troots, tnodes = (None, []) if rd["target"] is None else build_state({"units": rd["target"]})
+    try:
+        # what CellVetoEventHandler.send_event_time leaves behind (its own code: C18 glue)
+        h._store_in_state(roots)
+        h._construct_leaf_cnodes()
+        h._extract_active_leaf_unit()
+        h._event_time = Time(b2f(rd["T"][0]), b2f(rd["T"][1]))
+        h._time_slice_all_units_in_state()
+        h._bounding_event_rate = b2f(rd["b"])
+        res["time"] = list(rd["T"])
+        res["state1"] = dump(nodes + tnodes)
+        res["n_calls1"] = 0
+        out = h.send_out_state(None if troots is None else troots[0])
+        res["out_is_state"] = out is roots
+        res["out"] = dump(nodes + tnodes)
+        res["out_len"] = len(out)
+    except Exception as e:  # noqa
+        import traceback
+        res["exc"] = exc_enum(e) + ": " + str(e)[:200]
+        res["tb"] = traceback.format_exc()[-600:]
+    return finish(res)
 
 
 if __name__ == "__main__":
